@@ -32,6 +32,10 @@ CLAIMED = {
     "C34": ("Bodies of <= N instructions (quick 2, thorough 3) over gates, MEASURE, FENCE, LABEL, JUMP, JUMP-WHEN with every qubit a solver-chosen u64 or one of 3 placeholders "
             "and every target a fixed label or placeholder: the real resolve_placeholders and resolve_placeholders_with_custom_resolvers: equal placeholders get equal values, "
             "distinct ones distinct values unused by fixed qubits/labels, custom resolver values win, nothing else changes.", TRUST, "5/C34"),
+    "C35": ("Programs with two frame / waveform / extern definitions (keys solver-chosen, may coincide), a declaration, a DEFGATE, a DEFCIRCUIT, at most one calibration (4 shapes) "
+            "and a body of <= N instructions (quick 2, thorough 3): the real simplify::<DefaultHandler>: body equals the real expansion's, no calibrations, exactly the used "
+            "frames / invoked waveforms / called externs kept, other definitions unchanged. The clause on computed schedules is not covered.",
+            TRUST + "; schedule clause outside the claim", "5/C35"),
     "C22": ("All single blocks of <= N instructions (quick 2, thorough 3) plus an optional terminator over 16 classical / RF templates with solver-chosen operands, "
             "scheduled by the real ScheduledProgram::from_program: every edge points forward in block order; with all RF instructions matched every node is reachable "
             "from the start and reaches the end.", TRUST, "5/C22"),
